@@ -61,6 +61,15 @@ func TestC10(t *testing.T) {
 		}
 		allStrings(alpha, aLen, func(d []byte) { do("exa", ty, d) })
 	}
+	for _, ty := range varSeriesTypes() {
+		maxC, maxP := 2, 3
+		if thorough() {
+			maxC, maxP = 3, 4
+		}
+		for c := 1; c <= maxC; c++ {
+			offsetTables(c, maxP, func(d []byte) { do("offtab", ty, d) })
+		}
+	}
 	n := 260
 	if thorough() {
 		n = 5000
